@@ -1,10 +1,28 @@
 #!/bin/bash
 # Runs dapr/kit's test suite (guard off) in DIR (default /repo) and compares the
-# set of passing tests with /root/.vp/BASELINE.json stable_pass.
+# set of passing tests with /root/.vp/BASELINE.json stable_pass. Timing-sensitive tests
+# (cron TestChain*, spiffe trustanchors, …) flake under load: packages with a missing
+# baseline test are re-run alone (up to 2 more times) before the test counts as not passing.
 DIR=${1:-/repo}
 export GOFLAGS=-mod=mod GOPROXY=off GOSUMDB=off GOTOOLCHAIN=local
 OUT=$(mktemp)
 (cd "$DIR" && go test -json -vet=off -count=1 -timeout 25m ./... > "$OUT" 2>/dev/null)
+for try in 1 2; do
+  pk=$(python3 - "$OUT" <<'PY'
+import json,sys
+passed=set()
+for l in open(sys.argv[1]):
+    try: e=json.loads(l)
+    except Exception: continue
+    if e.get('Test') and e.get('Action')=='pass': passed.add(e['Package']+'::'+e['Test'])
+base=set(json.load(open('/root/.vp/BASELINE.json'))['stable_pass'])
+print(' '.join(sorted({m.split('::')[0] for m in base-passed})))
+PY
+)
+  [ -z "$pk" ] && break
+  echo "re-running alone (try $try): $pk"
+  (cd "$DIR" && go test -json -vet=off -count=1 -p 1 -timeout 25m $pk >> "$OUT" 2>/dev/null)
+done
 python3 - "$OUT" <<'PY'
 import json,sys
 passed=set(); failed=set()
@@ -16,7 +34,7 @@ for l in open(sys.argv[1]):
         (passed if e['Action']=='pass' else failed).add(k)
 base=set(json.load(open('/root/.vp/BASELINE.json'))['stable_pass'])
 missing=sorted(base-passed)
-print(f"passed={len(passed)} failed={len(failed)} baseline={len(base)} baseline_not_passing={len(missing)}")
+print(f"passed={len(passed)} failed_at_least_once={len(failed)} baseline={len(base)} baseline_not_passing={len(missing)}")
 for m in missing[:40]: print("  MISSING", m)
 sys.exit(1 if missing else 0)
 PY
